@@ -1,10 +1,114 @@
 import DFV.JsonField
+import DFV.Model.C20
 namespace DFV.Drv
-open Lean DFV
+open Lean DFV DFV.C20
 
-/-- driver ops of property C20 (stub: no ops yet) -/
+namespace C20J
+
+def optRatJ : Option Rat → Json
+  | none => .null
+  | some q => ratToJson q
+
+def hueJ : Option (Hue × Rat) → Json
+  | none => .null
+  | some (.val v, l) => .arr #[.str "val", ratToJson v, ratToJson l]
+  | some (.angle y x, l) => .arr #[.str "angle", ratToJson y, ratToJson x, ratToJson l]
+
+def callJ : PlotCall → Json
+  | .imshow img origin ext =>
+    Json.mkObj [("call", .str "imshow"), ("img", ndaToJson optRatJ img), ("origin", .str origin),
+      ("extent", ratsJ ext)]
+  | .imshowHL img origin ext =>
+    Json.mkObj [("call", .str "imshow_hl"), ("img", ndaToJson hueJ img), ("origin", .str origin),
+      ("extent", ratsJ ext)]
+  | .quiver X Y U V C =>
+    Json.mkObj [("call", .str "quiver"), ("X", ratsJ X), ("Y", ratsJ Y), ("U", ndaToJson optRatJ U),
+      ("V", ndaToJson optRatJ V),
+      ("C", match C with | none => .null | some c => ndaToJson ratToJson c)]
+  | .contour X Y Z =>
+    Json.mkObj [("call", .str "contour"), ("X", ratsJ X), ("Y", ratsJ Y), ("Z", ndaToJson optRatJ Z)]
+  | .labels xl yl => Json.mkObj [("call", .str "labels"), ("x", .str xl), ("y", .str yl)]
+
+def optFld (j : Json) (k : String) : R (Option Fld) :=
+  match fldOpt j k with
+  | none => pure none
+  | some v => some <$> fldOfJson v
+
+def optStrList (j : Json) (k : String) : R (Option (List (Option String))) :=
+  match fldOpt j k with
+  | none => pure none
+  | some v => some <$> listOf (fun e => match e with
+      | .null => pure none
+      | e => some <$> strOfJson e) v
+
+/-- exact square root of a rational that is a perfect square -/
+def ratSqrt? (q : Rat) : Option Rat :=
+  if q < 0 then none
+  else
+    let s := Nat.sqrt q.num.toNat
+    let d := Nat.sqrt q.den
+    if s * s = q.num.toNat ∧ d * d = q.den then some ((s : Rat) / (d : Rat)) else none
+
+def optsOfJson (j : Json) : R Opts := do
+  let mult ← match fldOpt j "mult" with
+    | none => pure none
+    | some v => some <$> ratOfJson v
+  let filter ← optFld j "filter"
+  let aux ← optFld j "aux"
+  let vdimsArg ← optStrList j "vdims_arg"
+  let useColor ← match fldOpt j "use_color" with
+    | none => pure true
+    | some v => boolOfJson v
+  let clim ← match fldOpt j "clim" with
+    | none => pure none
+    | some v => do
+      let l ← listOf ratOfJson v
+      match l with
+      | [a, b] => pure (some (a, b))
+      | _ => throw "clim must have two entries"
+  let pick ← match fldOpt j "pick" with
+    | none => pure 0
+    | some v => natOfJson v
+  pure { mult, filter, aux, vdimsArg, useColor, clim, pick }
+
+end C20J
+
+open C20J in
+/-- driver ops of property C20 -/
 def c20 (op : String) (j : Json) : Option (R Json) :=
   match op with
+  | "si_table" => some do
+      pure (Json.mkObj [
+        ("table", listJ (fun (p : String × Rat) => Json.arr #[.str p.1, ratToJson p.2]) siTable),
+        ("rsi", listJ (fun (p : String × Rat) => Json.arr #[ratToJson p.2,
+            match rsiPrefix? p.2 with | none => .null | some s => .str s]) siTable)])
+  | "si_multiplier" => some do
+      let v ← ratOfJson (← fld j "v")
+      pure (Json.mkObj [("ok", optRatJ (siMultiplier v))])
+  | "si_max_multiplier" => some do
+      let vs ← rats j "vs"
+      pure (resJ ratToJson (siMaxMultiplier vs))
+  | "rsi_prefix" => some do
+      let m ← ratOfJson (← fld j "m")
+      pure (Json.mkObj [("ok", match rsiPrefix? m with | none => .null | some s => .str s)])
+  | "plot" => some do
+      let kind ← strOfJson (← fld j "kind")
+      let f ← fldOfJson (← fld j "field")
+      let o ← optsOfJson j
+      let res ← match kind with
+        | "scalar" => pure (mplScalar f o)
+        | "contour" => pure (mplContour f o)
+        | "vector" => pure (mplVector f o)
+        | "default" => pure (mplDefault f o)
+        | "lightness" =>
+          -- exact square roots only: the generator uses Pythagorean vectors on this path
+          if f.nvdim = 2 ∧ o.aux.isNone ∧
+              f.data.toList.any (fun v => (ratSqrt? (normSq v)).isNone) then
+            throw "lightness of a 2-component field: |v| is not rational in some cell"
+          else pure (mplLightness (fun q => (ratSqrt? q).getD 0) f o)
+        | k => throw s!"unknown plot kind {k}"
+      let vd := match o.vdimsArg with | some l => l | none => inplaneVdims f
+      pure ((resJ (listJ callJ) res).setObjVal! "leftover" (strsJ (leftover f vd)))
   | _ => none
 
 end DFV.Drv
